@@ -109,6 +109,11 @@ def gen_pool(rng, tier, opts):
     pool.append(typical("mprocess", rng.choice(["x-type1", "z-type1", "z-type2", "y-type1"])))
     hss = ops.rand_mprocess_hss(rng, rng.random() < 0.5)
     pool.append({"kind": "mprocess", "csys": 0, "hss": hss, "shape": [len(hss)], "flags": _flags(rng), "born_atol": DEFAULT_ATOL})
+    # a measurement process in sampling mode (random by design): only looked at, never composed
+    smp = typical("mprocess", rng.choice(["x-type1", "z-type1"]))
+    smp.update(mode_sampling=True, sampling_seed=rng.randrange(100), sampling=True)
+    smp.pop("name", None)
+    pool.append(smp)
     # objects on the second system (tensor products)
     pool.append(typical("state", rng.choice(["z0", "a"]), csys=1))
     pool.append(typical("povm", rng.choice(["x", "z"]), csys=1))
@@ -482,6 +487,15 @@ class Run:
                 return {"out": out, "arg_after": var, "arg_before": np.array(st["var"])}
             raise ValueError(name)
         if op == "estimate":
+            if not live and st.get("sequence") is not None:
+                # reference for a sequence of datasets: every dataset on its own, with brand-new objects each time
+                # (what a re-used loss / algorithm object processed earlier in the same call must not matter either)
+                parts = []
+                for ds in (st["dataset"], st["sequence"]):
+                    sub = dict(st, dataset=ds, sequence=None)
+                    c2 = {}
+                    parts.append(self.do_estimate(sub, lambda i, c2=c2: self.build_entry(i, c2, False)))
+                return {"estimates": parts[0]["estimates"] + parts[1]["estimates"], "qop": parts[0]["qop"] + parts[1]["qop"]}
             return self.do_estimate(st, get)
         if op == "loss_eval":
             return self.do_loss_eval(st, get)
@@ -614,6 +628,8 @@ class Run:
             return
         if op == "mutate":
             return self.step_mutate(idx, st, sig)
+        if op == "bad_setter":
+            return self.step_bad_setter(idx, st, sig)
         if op == "chain":
             subs = [sub for sub in st["steps"] if all(sub.get(k) is None or 0 <= sub[k] < len(self.pool) for k in ("estimator", "tomo", "dataset", "loss", "algo", "sequence", "loss_option_id", "algo_option_id"))]
             if not subs:
@@ -730,6 +746,36 @@ class Run:
                     self.last_result_id = st["result_id"]
         if self.fault_pending:
             self.nontrivial = True
+
+    def step_bad_setter(self, idx, st, sig):
+        """a setter called with an invalid argument must raise and leave its object as it was."""
+        i = st["on"]
+        if not (isinstance(i, int) and 0 <= i < len(self.pool)) or self.pool[i]["kind"] not in QOP_KINDS:
+            return
+        obj = self.build_entry(i, None, True)
+        before = self.snapshot_all()
+        raised = None
+        try:
+            if st["name"] == "set_mode_proj_order":
+                obj.set_mode_proj_order(st["arg"])
+            elif st["name"] == "set_mode_sampling":
+                obj.set_mode_sampling(st["arg"][0], st["arg"][1])
+            else:
+                raise ValueError(st["name"])
+        except Exception as e:
+            raised = type(e).__name__
+        self.bump("oracle_checks", "O1")
+        self.log.append(["bad_setter", st["name"], raised])
+        if raised is None:
+            # the call was accepted after all (for this object it is a valid request): treat it as an in-place mutator
+            self.live.pop(i, None)
+            return
+        self.bump("probes", "invalid_setter_call_raised")
+        after = self.snapshot_all()
+        for j, d in before.items():
+            if after.get(j) != d:
+                raise Violation("O1_operand_immutability", f"step {idx}: {st['name']}({st['arg']}) raised {raised} but changed pool object {j} ({self.pool[j]['kind']})", {"step": idx, "st": to_jsonable(st), "object": j},
+                                dict(sig, changed=self.pool[j]["kind"], how="failed_setter"))
 
     def step_mutate(self, idx, st, sig):
         """an operation that is documented to change its operand in place (set_zero): the operand is exempt from O1,
@@ -928,7 +974,7 @@ class Generator:
         self.w = {
             "m": 6, "with_var": rngc.choice([1, 3]), "modfunc": rngc.choice([1, 3]), "compose": 2, "tensor": rngc.choice([0.3, 1]), "cache": 0 if self.fault_free else rngc.choice([2, 5, 8]),
             "flip": 0 if self.fault_free else rngc.choice([0, 0.5, 1.5]), "estimate": rngc.choice([0.5, 2, 4]), "loss_eval": rngc.choice([0.5, 2]), "basis_write": 0.4, "copy_edit": 0.7, "rerun": 1.0, "dataset": 0.8,
-            "mdist": 0.8, "tomo_m": 1.5, "basis_q": 0.8, "csys_q": 0.6, "chain": 0.7, "derive": 1.2, "setq": 0.8, "util": 0.8,
+            "mdist": 0.8, "tomo_m": 1.5, "basis_q": 0.8, "csys_q": 0.6, "chain": 0.7, "derive": 1.2, "setq": 0.8, "util": 0.8, "bad_setter": 0 if self.fault_free else 0.6,
         }
         self.focus = "general" if self.fault_free else rngc.choice(["general", "general", "cache", "cache", "estimation", "estimation", "projection", "tolerance"])
         if opts.get("focus"):
@@ -976,7 +1022,7 @@ class Generator:
     def g_derive(self):
         """an object made from another one's own variables (the arrays may be handed through), often zeroed right afterwards"""
         rng = self.rng
-        cands = [j for j, r in enumerate(self.pool) if r["kind"] in QOP_KINDS and r["csys"] == 0]
+        cands = [j for j, r in enumerate(self.pool) if r["kind"] in QOP_KINDS and r["csys"] == 0 and not r.get("sampling")]
         i = rng.choice(cands)
         kind = self.pool[i]["kind"]
         how = rng.choice(["generate_from_var", "generate_from_var_flags", "copy", "tomo_convert"])
@@ -996,6 +1042,15 @@ class Generator:
             out.append({"op": "m", "on": i, "name": rng.choice(["to_var", "to_stacked_vector", "is_physical"])})
         return out
 
+    def g_bad_setter(self):
+        rng = self.rng
+        cands = [j for j, r in enumerate(self.pool) if r["kind"] in QOP_KINDS]
+        i = rng.choice(cands)
+        if self.pool[i]["kind"] == "mprocess" and rng.random() < 0.7:
+            # invalid combinations of (mode_sampling, random_seed_or_generator)
+            return {"op": "bad_setter", "on": i, "name": "set_mode_sampling", "arg": rng.choice([[False, 3], [False, 11], ["yes", None]])}
+        return {"op": "bad_setter", "on": i, "name": "set_mode_proj_order", "arg": rng.choice(["bogus", "eq-ineq", ""])}
+
     def g_mutate(self):
         rng = self.rng
         # only derived objects and the random ones are zeroed; the catalogue testers stay usable for tomography
@@ -1003,7 +1058,7 @@ class Generator:
         # ... and members of a set of operations stay as they are (zeroing a member legitimately changes the set)
         used |= {m for r in self.pool if r["kind"] == "setq" for key in ("states", "povms", "gates", "mprocesses") for m in (r.get(key) or [])}
         used |= {m for r in self.pool if r["kind"] == "oplist" for m in r["ids"]}
-        cands = [j for j, r in enumerate(self.pool) if r["kind"] in QOP_KINDS and j not in used]
+        cands = [j for j, r in enumerate(self.pool) if r["kind"] in QOP_KINDS and j not in used and not r.get("sampling")]
         if not cands:
             return None
         i = rng.choice(cands)
@@ -1088,7 +1143,7 @@ class Generator:
     def g_compose(self):
         rng = self.rng
         c = 0 if rng.random() < 0.8 else 1
-        S, P, G, M = self.ids("state", c), self.ids("povm", c), self.ids("gate", c), self.ids("mprocess", c)
+        S, P, G, M = self.ids("state", c), self.ids("povm", c), self.ids("gate", c), [m for m in self.ids("mprocess", c) if not self.pool[m].get("sampling")]
         shapes = []
         if G:
             shapes.append(lambda: [rng.choice(G), rng.choice(G)])
